@@ -271,7 +271,12 @@ func newReg(c Case) (*regclient.RegClient, *memreg.Registry) {
 	return rc, mr
 }
 
-func runCase(c Case, dir string, res *lib.Result) string {
+func runCase(c Case, dir string, res *lib.Result) (ret string) {
+	defer res.Recover(c)
+	return runCaseRaw(c, dir, res)
+}
+
+func runCaseRaw(c Case, dir string, res *lib.Result) string {
 	ctx, cancel := context.WithTimeout(context.Background(), 30*time.Second)
 	defer cancel()
 	switch c.Kind {
